@@ -134,6 +134,28 @@ def tol_cases(ctx, which, variants, names=None):
   return terms, recs
 
 
+def nullspace_cases(rng, n):
+  """rank-deficient L (real-valued and dyadic) with query points that differ along directions L collapses:
+  the distance is ~0 and any formula that is not a sum of squares can round below zero"""
+  recs = []
+  for i in range(n):
+    d = int(rng.integers(2, 7))
+    k = int(rng.integers(1, d))
+    if i % 3 == 2:
+      L = rng.integers(-32, 33, size=(k, d)) / 4.0
+    else:
+      L = rng.standard_normal((k, d)) * float(rng.choice([1.0, 1e-3, 1e3]))
+    _, _, Vt = np.linalg.svd(L)
+    nb = Vt[np.linalg.matrix_rank(L):]
+    pts = []
+    for _ in range(4):
+      a = rng.standard_normal(d) * float(rng.choice([1.0, 10.0, 1e3, 1e6]))
+      b = a + rng.standard_normal(len(nb)).dot(nb) * float(rng.choice([1.0, 1e-3, 10.0]))
+      pts.append([a, b])
+    recs.append(dict(lane='nullspace', L=L, pts=np.array(pts)))
+  return recs
+
+
 # ----------------------------------------------------------------------------- falsifiers
 def falsify_metric(est, L, trip):
   """property oracle of C01 on the implementation, for one triple (x, y, z).
@@ -155,7 +177,9 @@ def falsify_metric(est, L, trip):
     return ('d(x,x) != 0', dxx)
   if dxy != dyx:
     return ('d(x,y) != d(y,x)', (dxy, dyx))
-  if dxz > dxy + dyz + 1e-9 * (dxy + dyz) + 1e-300:
+  # rounding of the computed distances is bounded relative to |L| (|x| + |y| + |z|), not to the distances themselves
+  mag = float(np.sqrt(np.sum(np.abs(L).dot(np.abs(x) + np.abs(y) + np.abs(z)) ** 2)))
+  if dxz > dxy + dyz + 1e-9 * (dxy + dyz) + 1e-12 * mag + 1e-300:
     return ('triangle inequality', (dxz, dxy, dyz))
   with warnings.catch_warnings():
     warnings.simplefilter('ignore')
@@ -165,6 +189,17 @@ def falsify_metric(est, L, trip):
     f = est.get_metric()
     m = f(x, y)
     msq = f(x, y, squared=True)
+    mrev = f(y, x)
+    mxx = f(x, x)
+  for nm, v in (('get_metric()(x,y)', m), ('get_metric()(x,y,squared=True)', msq), ('get_metric()(x,x)', mxx)):
+    if not np.isfinite(v):
+      return ('not finite: ' + nm, float(v))
+    if v < 0:
+      return ('negative: ' + nm, float(v))
+  if mxx != 0.0:
+    return ('get_metric()(x,x) != 0', float(mxx))
+  if m != mrev:
+    return ('get_metric()(x,y) != get_metric()(y,x)', (float(m), float(mrev)))
   if not np.array_equal(s, -dd):
     return ('pair_score != -pair_distance', (s.tolist(), dd.tolist()))
   bound = 1e-9 * float(np.sum((np.abs(L).dot(np.abs(y - x))) ** 2)) ** 0.5 + 1e-300
